@@ -15,7 +15,33 @@ LINES = {'quick': [[50, 80, 120], [30, 100]],
          'thorough': [[50, 80, 120], [30, 100], [140], [20, 20, 20, 60], [95, 95], [110, 45, 75]]}
 
 
-def _one_run(spans, rng, power_mode, fiber_type='SSMF'):
+def star_json(spans):
+    """A - B - C plus a third degree B - D; the boosters of ROADM B are named, so that it can carry per-degree targets"""
+    js = line_or_mesh_json(['A', 'B', 'C', 'D'], [('A', 'B', spans[0]), ('B', 'C', spans[1]), ('B', 'D', spans[2 % len(spans)])])
+    targets = {}
+    for k, y in enumerate(('A', 'C', 'D')):
+        uid = f'booster B{y}'
+        js['elements'].append({'uid': uid, 'type': 'Edfa', 'type_variety': 'std_medium_gain'})
+        for c in js['connections']:
+            if c['from_node'] == 'roadm B' and c['to_node'] == f'fiber (B -> {y})':
+                c['to_node'] = uid
+        js['connections'].append({'from_node': uid, 'to_node': f'fiber (B -> {y})'})
+        targets[uid] = -20.0 - k
+    rb = next(e for e in js['elements'] if e['uid'] == 'roadm B')
+    rb['params'] = {'per_degree_pch_out_db': targets}
+    return js
+
+
+def _outside(net, path):
+    """digest of everything a redesign of `path` has no business with: every element's exported settings except the
+    amplifiers of the path (ROADMs of the path included: their other degrees must keep their targets)"""
+    from gnpy.core.elements import Edfa
+    from harness.pipeline import digest
+    on = {e.uid for e in path if isinstance(e, Edfa)}
+    return digest(sorted((e.uid, json.dumps(e.to_json, sort_keys=True, default=str)) for e in net.nodes() if e.uid not in on))
+
+
+def _one_run(spans, rng, power_mode, fiber_type='SSMF', star=False):
     from gnpy.tools.json_io import network_from_json, load_equipments_and_configs
     from gnpy.tools.worker_utils import designed_network, transmission_simulation
     from gnpy.core.elements import Edfa
@@ -25,11 +51,18 @@ def _one_run(spans, rng, power_mode, fiber_type='SSMF'):
     eq['SI']['default'].power_range_db = list(rng)
     eq['Span']['default'].power_mode = power_mode
     sites = [chr(65 + i) for i in range(len(spans) + 1)]
-    js = line_or_mesh_json(sites, [(sites[i], sites[i + 1], km) for i, km in enumerate(spans)], fiber_type=fiber_type)
+    if star:
+        js, dest = star_json(spans), 'trx C'
+    else:
+        js = line_or_mesh_json(sites, [(sites[i], sites[i + 1], km) for i, km in enumerate(spans)], fiber_type=fiber_type)
+        dest = f'trx {sites[-1]}'
     net = network_from_json(js, eq)
-    net, req, ref = designed_network(eq, net, source='trx A', destination=f'trx {sites[-1]}')
+    net, req, ref = designed_network(eq, net, source='trx A', destination=dest)
     pref = float(watt2dbm(ref.power))
+    from gnpy.topology.request import compute_constrained_path
+    out0 = _outside(net, compute_constrained_path(net, req))
     path, props, powers, _ = transmission_simulation(eq, net, req, ref)
+    out1 = _outside(net, path)
     steps = []
     for p, pr in zip(powers, props):
         amps = [e for e in pr if isinstance(e, Edfa)]
@@ -37,15 +70,16 @@ def _one_run(spans, rng, power_mode, fiber_type='SSMF'):
                           amps=[dict(gain=udb(e.effective_gain), dp=udb(e.delta_p),
                                      out=udb(float(np.mean(e.pch_out_dbm)))) for e in amps],
                           gsnr=udb(float(np.mean(pr[-1].snr_01nm)))))
-    return dict(range=[udb(x) for x in rng], powers=[udb(float(p)) for p in powers], steps=steps), udb(pref)
+    return dict(range=[udb(x) for x in rng], powers=[udb(float(p)) for p in powers], steps=steps,
+                outside0=out0, outside1=out1), udb(pref)
 
 
-def record_case(name, spans, power_mode, ranges, fiber_type='SSMF'):
+def record_case(name, spans, power_mode, ranges, fiber_type='SSMF', star=False):
     sim0 = sim_digest()
-    nominal, pref = _one_run(spans, [0, 0, 1], power_mode, fiber_type)
+    nominal, pref = _one_run(spans, [0, 0, 1], power_mode, fiber_type, star)
     runs = []
     for rng in ranges:
-        run, _ = _one_run(spans, rng, power_mode, fiber_type)
+        run, _ = _one_run(spans, rng, power_mode, fiber_type, star)
         runs.append(run)
     return dict(name=name, mode=1 if power_mode else 0, pref=pref, nominal=nominal['steps'][0], runs=runs,
                 sim0=sim0, sim1=sim_digest())
@@ -87,6 +121,7 @@ def run(chk, kind='B3|sweep'):
             cases.append(record_case(f'line-{"-".join(map(str, spans))}-power', spans, True, ranges))
             if chk.tier == 'thorough' or k == 0:
                 cases.append(record_case(f'line-{"-".join(map(str, spans))}-gain', spans, False, [RANGES[0]]))
+        cases.append(record_case('star-60-90-40-power', [60, 90, 40], True, [RANGES[0], RANGES[1]], star=True))
         if chk.tier == 'thorough':
             for k in range(4):
                 spans = [rng.randrange(15, 150) for _ in range(rng.randrange(1, 5))]
